@@ -359,7 +359,7 @@ func (c *Conc) ReportFiles() map[string]string {
 // WithObs returns a copy of the bookkeeping state b whose resolver part is the observation o.
 func WithObs(b *PState, o *Obs) *PState {
 	n := *b
-	n.Meth, n.Helpers, n.Imports, n.Warn, n.Ok = o.Meth, o.Helpers, o.Imports, o.Warn, o.Ok
+	n.Meth, n.Helpers, n.Imports, n.Warn, n.Ok, n.Enc = o.Meth, o.Helpers, o.Imports, o.Warn, o.Ok, o.Enc
 	n.Gen = nil
 	return &n
 }
@@ -494,6 +494,11 @@ func (s *PState) Book(a PAction, typeOf func(string) string) (*PState, bool) {
 			return nil, false
 		}
 		n.Dirty = maxDirty(s.Dirty, "go")
+	case "Resave":
+		if !anyMeth(a.F) || s.Enc[a.F] == a.En {
+			return nil, false
+		}
+		n.Dirty = maxDirty(s.Dirty, "go")
 	case "AddField":
 		if live(a.P) {
 			return nil, false
@@ -557,6 +562,8 @@ func applyEdit(c *Conc, cur, next *PState, a PAction) error {
 		m := cur.Meth[a.F][a.P]
 		m.Uses = sortedCopy(append(append([]string{}, m.Uses...), a.I))
 		return c.SetMethod(a.F, a.P, m)
+	case "Resave":
+		return c.Resave(a.F, a.En)
 	case "AddField", "RemoveField", "RenameField", "MoveField", "RemoveType":
 		return c.WriteSchema(next)
 	}
@@ -656,7 +663,7 @@ func (r *Replayer) exec(c *Conc, init string, e *REdge, path []*REdge, cur *PSta
 		post = WithObs(book, obs)
 	} else { // a file does not parse: the resolver part cannot be observed
 		b := *book
-		b.Meth, b.Helpers, b.Imports, b.Warn, b.Ok, b.Gen = cur.Meth, cur.Helpers, cur.Imports, cur.Warn, false, nil
+		b.Meth, b.Helpers, b.Imports, b.Warn, b.Ok, b.Gen, b.Enc = cur.Meth, cur.Helpers, cur.Imports, cur.Warn, false, nil, cur.Enc
 		post = &b
 	}
 	if a.Name == "Generate" && pre.Comp == "yes" && obs.Ok {
@@ -806,11 +813,22 @@ func stateJSON(s *PState) map[string]any {
 		comp = "unk"
 	}
 	return map[string]any{"schema": s.Schema, "texists": s.Texists, "cfg": map[string]any{"rl": s.Cfg.Rl, "el": s.Cfg.El},
-		"meth": meth, "helpers": sets(s.Helpers), "imports": sets(s.Imports), "warn": warn, "ok": s.Ok, "comp": comp, "dirty": s.Dirty}
+		"meth": meth, "helpers": sets(s.Helpers), "imports": sets(s.Imports), "warn": warn, "ok": s.Ok, "comp": comp, "dirty": s.Dirty, "enc": encOf(s)}
+}
+
+func encOf(s *PState) map[string]string {
+	o := map[string]string{}
+	for f := range s.Meth {
+		o[f] = "lf"
+		if e, ok := s.Enc[f]; ok && e != "" {
+			o[f] = e
+		}
+	}
+	return o
 }
 
 func actionJSON(a PAction) map[string]any {
-	o := map[string]any{"name": a.Name, "f": a.F, "p": a.P, "q": a.Q, "t": a.T, "h": a.H, "i": a.I, "sf": a.Sf}
+	o := map[string]any{"name": a.Name, "f": a.F, "p": a.P, "q": a.Q, "t": a.T, "h": a.H, "i": a.I, "sf": a.Sf, "en": a.En}
 	e := map[string]any{"body": "-", "doc": "-", "named": false}
 	if a.E != nil {
 		e = map[string]any{"body": a.E.Body, "doc": a.E.Doc, "named": a.E.Named}
